@@ -100,6 +100,8 @@ import Tie.Binders
 #print axioms Tie.map_index_eq -- module Tie.Excerpt
 #print axioms Tie.linecol_spec -- module Tie.Excerpt
 #print axioms Tie.excerpt_spec -- module Tie.Excerpt
+#print axioms Tie.linecol_defined_iff -- module Tie.Excerpt
+#print axioms Tie.linecol_at_newline -- module Tie.Excerpt
 #print axioms Tie.metaTable_grouping -- module Tie.MetaTable
 #print axioms Tie.binders_agree -- module Tie.Binders
 #print axioms Tie.names_flags_conservative -- module Tie.Binders
